@@ -37,3 +37,43 @@ Print Assumptions C06_L0_both_passes_not_idempotent_refuted.
 Theorem C06_L0_call_form_pass_idempotent : forall m e o, Fmt0.cexp m o (Fmt0.cexp m o e) = Fmt0.cexp m o e.
 Proof. exact Fmt0Proof.cexp_idempotent. Qed.
 Print Assumptions C06_L0_call_form_pass_idempotent.
+(* ... and both passes together are idempotent on every program in which no unary minus is applied - through parentheses - to
+   something that starts with a unary minus: the tree format0 writes is a fixed point of format0's passes, so formatting it
+   again gives the same bytes (conditions included: every layer of parentheses around them goes in one pass) *)
+From SV Require Fmt0Idem ParensIdem.
+Theorem C06_L0_both_passes_idempotent_without_a_double_minus : forall c p,
+  Fmt0.guard_free p = true -> Fmt0.norm0 c (Fmt0.norm0 c p) = Fmt0.norm0 c p.
+Proof. exact Fmt0Idem.norm0_idempotent. Qed.
+Print Assumptions C06_L0_both_passes_idempotent_without_a_double_minus.
+Theorem C06_L0_formatting_the_written_tree_gives_the_same_bytes : forall c p,
+  Fmt0.guard_free p = true -> Fmt0.format0 c (Fmt0.norm0 c p) = Fmt0.format0 c p.
+Proof. exact Fmt0Idem.format0_of_its_tree. Qed.
+Print Assumptions C06_L0_formatting_the_written_tree_gives_the_same_bytes.
+Theorem C06_L0_idempotence_premise_is_met : Fmt0.guard_free Fmt0Idem.idem_example = true /\ Fmt0.guard_free Fmt0Proof.witness_not_idempotent = false
+  /\ Fmt0.norm0 Fmt0Proof.cfg_witness Fmt0Idem.idem_example <> Fmt0Idem.idem_example.
+Proof. exact Fmt0Idem.guard_free_example. Qed.
+Print Assumptions C06_L0_idempotence_premise_is_met.
+(* the parenthesis rule itself (Parens.fmt_single, the model of C02 on every operator shape, type assertions included) *)
+Theorem C06_parenthesis_rule_idempotent_without_a_double_minus : forall e c,
+  Parens.gf e = true -> Parens.fmt_single c (Parens.fmt_single c e) = Parens.fmt_single c e.
+Proof. exact ParensIdem.fmt_single_idempotent. Qed.
+Print Assumptions C06_parenthesis_rule_idempotent_without_a_double_minus.
+(* Tie 1 for the parentheses around conditions (stmt.rs remove_condition_parentheses, regenerated on every run): one pass leaves no
+   removable layer, so a second pass finds nothing to do - whatever the two comment oracles answer; and on L0 trees the
+   regenerated function strips exactly the layers Fmt0.ncond strips *)
+From SV Require FmAstCond CondProof.
+From SVgen Require CondParens.
+Theorem C06_regenerated_condition_rule_idempotent : forall pc hl e,
+  CondParens.remove_condition_parentheses pc hl (CondParens.remove_condition_parentheses pc hl e) = CondParens.remove_condition_parentheses pc hl e.
+Proof. exact CondProof.rcp_idempotent. Qed.
+Print Assumptions C06_regenerated_condition_rule_idempotent.
+Theorem C06_regenerated_condition_rule_leaves_no_removable_layer : forall pc hl e,
+  CondProof.removable_layer pc hl (CondParens.remove_condition_parentheses pc hl e) = false.
+Proof. exact CondProof.rcp_leaves_no_removable_layer. Qed.
+Print Assumptions C06_regenerated_condition_rule_leaves_no_removable_layer.
+Theorem C06_L0_condition_rule_is_the_regenerated_one : forall code e,
+  Fmt0.ncond e = Fmt0.nexp Parens.Std (Fmt0Idem.core e) /\
+  CondParens.remove_condition_parentheses (fun _ => false) (fun _ _ => false) (CondProof.emb code e) = CondProof.emb code (Fmt0Idem.core e) /\
+  Fmt0Idem.isparen (Fmt0Idem.core e) = false.
+Proof. exact CondProof.ncond_is_the_rule_after_the_regenerated_stripping. Qed.
+Print Assumptions C06_L0_condition_rule_is_the_regenerated_one.
